@@ -63,7 +63,10 @@ fn main() {
           let tier = match args[2].as_str() { "quick" => Tier::Quick, "thorough" => Tier::Thorough, other => { eprintln!("unknown tier {other}"); std::process::exit(2) } };
           let ctx = Ctx::new($name, tier, seed);
           ctx.saved_cases($m::subs());
-          let meta = $m::run(&ctx);
+          let meta = std::thread::scope(|sc| {
+            sc.spawn(|| ctx.profile_child());
+            $m::run(&ctx)
+          });
           let out = engine::finish(ctx, meta);
           std::process::exit(out.exit_code);
         } )*
